@@ -1,7 +1,7 @@
 SPECIFICATION Spec
 CONSTANTS
   Size = "small"
-  Keep = "not_p"
+  Keep = "is_not_true"
   Emit = FALSE
-INVARIANTS ImplSafe AsWritten
+INVARIANTS ImplSafe PropExact
 CHECK_DEADLOCK FALSE
